@@ -37,7 +37,7 @@ class ExceptionPayload:
         if k == "args":
             return [Res(st, VOpaque(st.get(obj, "args_value")))]
         if k == "attributes":
-            return [Res(st, st.new_obj("attribute_dict", items_seq=st.get(obj, "attr_items")))]
+            return [Res(st, st.new_obj("attribute_dict", items_seq=st.get(obj, "attr_items"), is_dict=VBool(z3.Bool("attributes_member_is_a_plain_dict"))))]
         raise Unsupported("payload key %r" % k)
 
     methods = {"__getitem__": m_getitem}
@@ -45,10 +45,17 @@ class ExceptionPayload:
 
 @R.model("attribute_dict")
 class AttributeDict:
+    """data['attributes']: what the payload holds there - a plain dict, or (msgpack revives the members of a dict before the dict itself) an already revived object"""
+
     def getattr(self, E, st, obj, name):
         return None
 
+    def isinstance(self, E, st, v, names):
+        return st.get(v, "is_dict").e if "builtins.dict" in names else z3.BoolVal(False)
+
     def m_items(self, E, st, obj, args, kw):
+        # C04: .items of a revived Proxy is a remote attribute access (a socket is opened): the member is walked only once it is known to be a plain dict
+        E.oblige(st, "the attributes member is walked only after it was checked to be a plain dict (a revived Proxy would be called)", st.get(obj, "is_dict").e, kind="pre")
         return [Res(st, VOpaque(st.get(obj, "items_seq")))]
 
     methods = {"items": m_items}
@@ -92,6 +99,8 @@ class MakeExceptionBody(Contract):
         ok = len(args) == 1 and isinstance(args[0], tuple) and args[0][0] == "*" and isinstance(args[0][1], VOpaque) and z3.eq(args[0][1].e, self.ARGS) and not kwargs
         E.oblige(st, "it is called with exactly the args of the payload (cls(*data['args']))", z3.BoolVal(ok), kind="pre")
         E.oblige(st, "it is called once", st.ghost["user_calls"].e == 0, kind="pre")
+        E.oblige(st, "the args member is star-expanded only after it was checked to be a plain list / tuple (iterating a revived Proxy would call its remote object)",
+                 z3.Or([z3.Function("isinstance_builtins." + k_, U, BoolS)(self.ARGS) for k_ in ("list", "tuple")]), kind="pre")
 
     def built(self, st):
         calls = [e for e in st.events if e[0] == "user_call"]
